@@ -40,6 +40,18 @@ def recase(ctx, name, r, n):
     return "".join(ch.lower() if b else ch for ch, b in zip(r, bits))
 
 
+def recase_any(ctx, name, r, n):
+    """as recase, for upper-case data over any IUPAC letters (N, R, Y, ... have lower-case spellings too)"""
+    from symx.core import map_code, _LOWER
+
+    bits = ctx.mk.track(name, n, lo=0, hi=1)
+    if isinstance(bits, SSeq):
+        R = SSeq.lift(r)
+        return SSeq(n, lambda p: If(Eq(bits.get(p), 1), map_code(R.get(p), _LOWER, str.lower), R.get(p)), n,
+                    hint=frozenset(range(30)))
+    return "".join(ch.lower() if b else ch for ch, b in zip(r, bits))
+
+
 def eq_upto_case(a, b):
     a, b = sdata(a), sdata(b)
     la, lb = slen(a), slen(b)
@@ -56,8 +68,13 @@ def ob_typing(ctx):
     P = ctx.P
     n = P["n"]
     K = get_class(st, P)
-    r = ctx.mk.seq("r", n, "ACGT")
-    r2 = recase(ctx, "case", r, n)
+    if P.get("alphabet"):
+        # plasmids with unknown bases: N (and any other IUPAC letter) has a lower-case spelling as well
+        r = ctx.mk.seq("r", n, P["alphabet"])
+        r2 = recase_any(ctx, "case", r, n)
+    else:
+        r = ctx.mk.seq("r", n, "ACGT")
+        r2 = recase(ctx, "case", r, n)
     a = K(st.record.CircularRecord(st.Seq(r), id="u"))
     b = K(st.record.CircularRecord(st.Seq(r2), id="m"))
     va, vb = a.is_valid(), b.is_valid()
@@ -177,6 +194,11 @@ def obligations(tier, seed):
         obs.append(Ob("typing generic vector over %s n=%d (room for a third site in the placeholder)" % (e, n), ob_typing,
                       dict(src="generic", role="vector", enzyme=e, n=n, third=True), samples=3, cost=n ** 3 * 2,
                       expect_witness=("illegal-site", "no-illegal-site"), group="third-site " + e))
+    for role in tier_pick(tier, ["module"], ["module", "vector"]):
+        F = fixed_letters(generic_class(rst, role, "BsaI").structure())
+        obs.append(Ob("typing generic %s over BsaI n=%d, plasmids with unknown bases (letters ACGTN) under every spelling" % (role, F + 1),
+                      ob_typing, dict(src="generic", role=role, enzyme="BsaI", n=F + 1, alphabet=[0, 1, 2, 3, code_of("N")]),
+                      samples=3, cost=3 * (F + 1) ** 3, group="unknown bases"))
     for role in tier_pick(tier, ["module"], ["module", "vector"]):
         F = fixed_letters(generic_class(rst, role, "BsaI").structure())
         obs.append(Ob("characterize user family %s over BsaI n=%d under every spelling" % (role, F + 1), ob_characterize,
